@@ -28,6 +28,19 @@ def _nets(tier, rng):
             yield ds, "structured"
 
 
+def _level_order(ds, rng):
+    """a topological order sorted by distance to the pit (what Flwdir.order_cells produces), ties shuffled"""
+    rk = nets.rank(ds)
+    cells = [i for i in range(len(ds)) if ds[i] >= 0 and rk[i] is not None and rk[i] >= 0]
+    rng.shuffle(cells)
+    return sorted(cells, key=lambda i: rk[i])
+
+
+def _is_level_order(ds, sq):
+    rk = nets.rank(ds)
+    return all(rk[sq[i]] <= rk[sq[i + 1]] for i in range(len(sq) - 1))
+
+
 def cases(tier, rng):
     from props_c08 import _uparea, _main, _strahler
     for ds, tag in _nets(tier, rng):
@@ -40,11 +53,14 @@ def cases(tier, rng):
         main = _main(ds, upa, 0)
         so = _strahler(ds, [1] * n)
         yield {"k": 1801, "args": [ds, sq, so, [rng.choice([1, 2, -1, -2, 3])]], "group": f"{tag}-streamorder"}
-        yield {"k": 1802, "args": [ds, sq, main, upa, [rng.choice([1, 3, 8])]], "group": f"{tag}-area"}
+        # the area method is order-dependent: its threshold clause is only claimed for the orders the library itself
+        # produces (cells sorted by distance to the pit); both kinds of order are still compared with the model
+        lv = _level_order(ds, rng)
+        yield {"k": 1802, "args": [ds, sq if rng.random() < 0.4 else lv, main, upa, [rng.choice([1, 3, 8])]], "group": f"{tag}-area"}
         # fractional cell areas (quarters; the model works on the values scaled by 4)
         wq = [rng.choice([1, 1, 2, 3, 5]) for _ in range(n)]
         upq = [(-9999 * 4 if ds[i] < 0 else sum(wq[x] for x in range(n) if ds[x] >= 0 and i in _path(ds, x))) for i in range(n)]
-        yield {"k": 1802, "args": [ds, sq, _main(ds, upq, 0), upq, [rng.choice([4, 6, 8, 9, 12])]], "call2": {"scale": 4}, "group": f"{tag}-area-fractional"}
+        yield {"k": 1802, "args": [ds, sq if rng.random() < 0.4 else lv, _main(ds, upq, 0), upq, [rng.choice([4, 6, 8, 9, 12])]], "call2": {"scale": 4}, "group": f"{tag}-area-fractional"}
         depth = rng.choice([1, 1, 2, 3])
         if n <= 40 and rng.random() < 0.7:
             # upstream areas without ties (weights 2^x are exact in binary64 up to n = 40): the choice among
@@ -162,7 +178,7 @@ def oracle(case, out):
         else:
             upa, amin = a[3], a[4][0]
             for kk, x in enumerate(idxs):
-                if ds[x] != x:
+                if ds[x] != x and _is_level_order(ds, a[1]):
                     own = sum(1 for c in range(n) if lab[c] == kk + 1)
                     # own area of the sub-basin = uparea at its outlet minus uparea entering from upstream sub-basins
                     inflow = sum(upa[c] for c in range(n) if ds[c] >= 0 and ds[c] != c and lab[ds[c]] == kk + 1 and lab[c] != kk + 1 and lab[c] != 0)
